@@ -51,6 +51,16 @@ def cases(tier):
                 C.append({"kind": "flow", "factory": "planar_flow", "dim": dim, "invert": inv, "cond_dim": cd, "negative_slope": 0.2, "flow_layers": 2})
                 C.append({"kind": "flow", "factory": "triangular_spline_flow", "dim": dim, "invert": inv, "cond_dim": cd, "flow_layers": 2, "knots": 4})
                 C.append({"kind": "flow", "factory": "block_neural_autoregressive_flow", "dim": dim, "invert": inv, "cond_dim": cd, "flow_layers": 1, "nn_block_dim": 3, "nn_depth": 1})
+    # legal but unusual factory arguments: no hidden layers, one flow layer, narrow / non-symmetric spline intervals (mass outside
+    # the interval), one-knot triangular splines, block dimension 1
+    maf, cf = "masked_autoregressive_flow", "coupling_flow"
+    C += [{"kind": "flow", "factory": maf, "dim": 2, "invert": True, "cond_dim": None, "transformer": None, "flow_layers": 2, "nn_width": 5, "nn_depth": 0},
+          {"kind": "flow", "factory": maf, "dim": 1, "invert": False, "cond_dim": 2, "transformer": None, "flow_layers": 2, "nn_width": 5, "nn_depth": 0},
+          {"kind": "flow", "factory": maf, "dim": 2, "invert": False, "cond_dim": None, "transformer": "rqs", "flow_layers": 1, "nn_width": 4, "nn_depth": 0, "knots": 3, "interval": 1.5},
+          {"kind": "flow", "factory": cf, "dim": 2, "invert": True, "cond_dim": 2, "transformer": "rqs", "flow_layers": 2, "nn_width": 4, "nn_depth": 0, "knots": 2, "interval": (-1.0, 2.0)},
+          {"kind": "flow", "factory": cf, "dim": 2, "invert": False, "cond_dim": None, "transformer": None, "flow_layers": 1, "nn_width": 1, "nn_depth": 2},
+          {"kind": "flow", "factory": "triangular_spline_flow", "dim": 2, "invert": True, "cond_dim": None, "flow_layers": 1, "knots": 1, "tanh_max_val": 1.0},
+          {"kind": "flow", "factory": "block_neural_autoregressive_flow", "dim": 2, "invert": True, "cond_dim": None, "flow_layers": 1, "nn_block_dim": 1, "nn_depth": 0}]
     for dim in (1, 2):
         for orient in ("as_is", "inverted"):
             C.append({"kind": "hand", "which": "spline", "dim": dim, "orient": orient})
